@@ -54,7 +54,7 @@ PRIMES = [2, 3, 5, 7, 11, 13, 17, 19, 23, 29]
 
 def units(tier, seed):
     if tier == "quick":
-        plan = [("U233", 200, 2), ("U332", 60, 2), ("U422", 60, 2),
+        plan = [("U233", 200, 2), ("U332", 60, 2), ("U422", 60, 1),
                 ("F", 1, 2)]
     else:
         plan = [("U233", 100, 3), ("U332", 30, 3), ("U422", 30, 3),
